@@ -534,6 +534,9 @@ func init() {
 	Register(&Check{ID: "C11", Level: "fault_enumeration",
 		Rule: "one case = one generated workflow and one of three ways, tape-chosen, of splitting its execution over several incarnations on one persistent fs: (a) RunTo(tape-chosen prefix targets) then Run; (b) for the sampled schedule EVERY distinct crash state: kill there, cleanup, re-run (states in which the re-run does not complete are C03's business and skipped here); (c) complete run, delete a tape-chosen set of outputs with their audit files, re-run; (d) up to four further rounds of (c) inside ONE simulated process, library globals not re-initialised. Oracle after each history: every output's audit file equals the reference lineage (= the uninterrupted result: process, command, parameters, tags, output paths of every ancestor, recursively), and every nested ancestor record whose audit file was on disk before the resuming incarnation is identical (ids, time stamps and all) to that file - which exercises scipipe's own write -> read -> embed -> write path. Round 5: at the end of each history the record on disk of every tagged file holds the tag. distinct = event-log hash of the history; non-trivial = >=2 tasks, >=1 non-default choice",
 		Run: func(c *Case) Verdict {
+			if c.Tape.Choose(simrt.StGen, 12, 0) == 1 {
+				return stagedCase(c)
+			}
 			mode := c.Tape.Choose(simrt.StGen, 4, 0)
 			prof := profC11
 			if mode == 1 {
@@ -845,6 +848,89 @@ func siblingTaggerCase(c *Case) Verdict {
 		}
 	}
 	return OK()
+}
+
+// stagedCase: one program with TWO workflows, both built up front: the first
+// makes files and tags them, the second (run after the first has returned)
+// reads those files through a FileSource and derives results from them. The
+// execution is split: a first invocation of the program stops after the making
+// process (RunTo), or is killed at a crash state; the second invocation runs
+// everything. The records of the second workflow's results must carry the
+// same lineage - tags included - as after an uninterrupted run.
+func stagedCase(c *Case) Verdict {
+	t := c.Tape
+	w := &WF{Name: "wf", Sources: map[string]string{}, MaxTasks: 1 + t.Choose(simrt.StGen, 3, 0), Bufsize: bufsizeOf(t)}
+	n := 1 + t.Choose(simrt.StGen, 3, 0)
+	mk := oneToOne(w, "mk", Edge{srcNode(w, "src0", n, ""), "out"})
+	tg := addNode(w, Node{Name: "tagS", Kind: KMapToTags, TagKey: "sample",
+		Ins: []InSpec{{Name: "in", From: []Edge{{mk, "o0"}}}}, Outs: []OutSpec{{Name: "out"}}})
+	if t.Choose(simrt.StGen, 2, 0) == 1 {
+		oneToOne(w, "mid", Edge{tg, "out"})
+	}
+	src2 := Node{Name: "src2", Kind: KFileSrc, Stage: 1}
+	for _, tk := range Eval(w).Tasks {
+		if tk.Proc == "mk" {
+			src2.Files = append(src2.Files, tk.Outs["o0"])
+		}
+	}
+	s2 := addNode(w, src2)
+	y := oneToOne(w, "y", Edge{s2, "out"})
+	w.Nodes[y].Stage = 1
+	ex := Eval(w)
+	c.Probe("two-workflows-built-up-front")
+	var final *simrt.Inode
+	var incs []*Inc
+	if t.Choose(simrt.StGen, 2, 0) == 1 {
+		w1 := *w
+		w1.RunTo = []string{"mk"}
+		c.Sample = "first invocation RunTo(mk), second runs both workflows: " + sample(w)
+		inc1 := RunInc(&w1, c.Tape, nil, 0, IncOpts{KillAt: -1, Strategy: strategyOf(c.Tape), Trace: c.Trace})
+		c.Absorb(inc1)
+		if v, ok := inconclusiveEnd(inc1); ok {
+			return v
+		}
+		if !completedOK(inc1) {
+			return Skipped(Viol("no-completion", "", "RunTo(mk): %s", endDesc(inc1)))
+		}
+		inc2 := RunInc(w, c.Tape, inc1.Sim.FS.Root, inc1.Sim.FS.NextIno, IncOpts{KillAt: -1, Strategy: strategyOf(c.Tape), Trace: c.Trace})
+		c.Absorb(inc2)
+		incs, final = []*Inc{inc1, inc2}, inc2.Sim.FS.Root
+		if v, ok := inconclusiveEnd(inc2); ok {
+			return v
+		}
+		if !completedOK(inc2) {
+			return Skipped(Viol("resume-no-completion", "", "%s", endDesc(inc2)))
+		}
+	} else {
+		c.Sample = "killed at a crash state, cleanup, run again: " + sample(w)
+		inc1 := RunInc(w, c.Tape, nil, 0, IncOpts{KillAt: -1, Strategy: strategyOf(c.Tape), Trace: c.Trace, SnapOne: 1 + uint64(c.Tape.Choose(simrt.StKill, 1<<20, 0))})
+		c.Absorb(inc1)
+		if v, ok := inconclusiveEnd(inc1); ok {
+			return v
+		}
+		if !completedOK(inc1) || len(inc1.Snaps) == 0 {
+			return Skipped(Viol("no-completion", "", "%s", endDesc(inc1)))
+		}
+		sn := inc1.Snaps[0]
+		c.Fault("kill@state")
+		inc2 := RunInc(w, c.Tape, Cleanup(sn.Root), sn.NextIno, IncOpts{KillAt: -1, Strategy: strategyOf(c.Tape), Trace: c.Trace})
+		c.Absorb(inc2)
+		incs, final = []*Inc{inc1, inc2}, inc2.Sim.FS.Root
+		if v, ok := inconclusiveEnd(inc2); ok {
+			return v
+		}
+		if !completedOK(inc2) {
+			return Skipped(Viol("resume-no-completion", "", "%s", endDesc(inc2)))
+		}
+	}
+	c.Tasks = max(c.Tasks, 2)
+	if cl, d := checkFinalFiles(final, ex, false); cl != "" {
+		return Skipped(Viol(cl, "", "%s", d))
+	}
+	if v := auditOracle(final, ex, instsByKey(incs...)); v.Status != "ok" {
+		return v
+	}
+	return taggedOnDiskOracle(final, ex)
 }
 
 // globDepCase: a dependent FileGlobber picks up the outputs of an upstream
